@@ -584,7 +584,33 @@ def _default_decide(a, b, rel):
         z = d.is_zero()
         if alg.ctx().meta.get("eq_is_identity", True):
             return z if rel == "==" else not z
+    sg = syntactic_sign(d)
+    if sg is not None:
+        return {"<": sg < 0, "<=": sg < 0, ">": sg > 0, ">=": sg > 0}[rel]
     raise Undecided("comparison %s on symbolic reals outside a path exploration" % rel)
+
+
+def syntactic_sign(v):
+    """+1 / -1 when every term of the value is a product of positive atoms with coefficients of one sign
+    (positive symbols, radicals, exponentials, primes, defined atoms) and the denominator likewise"""
+    C = alg.ctx()
+    posk = ("pos", "rad", "exp", "prime", "def", "gsq")
+    sign = None
+    for part in alg.simple_parts(v):
+        for f in part.df:
+            if any(c < 0 for c in C.factors[f].values()) or any(C.kinds[t] not in posk for m in C.factors[f] for t, _ in C.items(m)):
+                return None
+        if any(C.kinds[t] not in posk for t, _ in C.items(part.dm)):
+            return None
+        for m, c in part.n.items():
+            if any(C.kinds[t] not in posk for t, _ in C.items(m)):
+                return None
+            sg = 1 if c > 0 else -1
+            if sign is None:
+                sign = sg
+            elif sign != sg:
+                return None
+    return sign
 
 
 DECIDE = _default_decide
